@@ -197,7 +197,9 @@ func (w *outsWorld) add(s outsNodeSpec) *outsNode {
 
 func (w *outsWorld) n(name string) *outsNode { return w.nodes[name] }
 
-func (w *outsWorld) blocked(a, b string) bool { return w.block[[2]string{a, b}] || w.block[[2]string{b, a}] }
+func (w *outsWorld) blocked(a, b string) bool {
+	return w.block[[2]string{a, b}] || w.block[[2]string{b, a}]
+}
 
 func outsParse(src, dst netip.AddrPort, from, to string, data []byte) outsWire {
 	x := outsWire{from: from, to: to, src: src, dst: dst, data: data}
@@ -386,10 +388,12 @@ func outsStdWorldFrom(specs []outsNodeSpec) *outsWorld {
 	return w
 }
 
-func mustAP(s string) netip.AddrPort { return netip.MustParseAddrPort(s) }
+func outsMustAP(s string) netip.AddrPort { return netip.MustParseAddrPort(s) }
 
-func headerEncode(b []byte, ty, st uint8, idx uint32, ctr uint64) []byte {
+func outsHeaderEncode(b []byte, ty, st uint8, idx uint32, ctr uint64) []byte {
 	return header.Encode(b, header.Version, header.MessageType(ty), header.MessageSubType(st), idx, ctr)
 }
 
-func nebulaDefaultRecvErr() (string, string) { return nebula.VerifOutsideDefaultRecvError(outsLogger("cfg")) }
+func outsDefaultRecvErr() (string, string) {
+	return nebula.VerifOutsideDefaultRecvError(outsLogger("cfg"))
+}
